@@ -277,13 +277,14 @@ class C11(Prop):
             if cap is not None and len(replies) > 1:
                 from harness import ilpcap
                 from collections import Counter
-                mine = Counter(ilpcap.model_constraints(replies[1]))
-                theirs = Counter(cap["constraints"])
+                # compared as SETS: a constraint stated twice changes nothing (multiplicities are drift)
+                mine = set(ilpcap.model_constraints(replies[1]))
+                theirs = set(cap["constraints"])
                 if mine != theirs:
-                    diff = list((theirs - mine).items())[:2] + list((mine - theirs).items())[:2]
+                    diff = list(theirs - mine)[:2] + list(mine - theirs)[:2]
                     out.append(Problem("disagreement", case, "the ILP handed to the solver differs from the model's "
-                                       f"constraint system ({sum((theirs - mine).values())} extra, "
-                                       f"{sum((mine - theirs).values())} missing), e.g. {diff}", "model/ilp-constraints"))
+                                       f"constraint system ({len(theirs - mine)} extra, "
+                                       f"{len(mine - theirs)} missing), e.g. {diff}", "model/ilp-constraints"))
                 elif replies[1]["solutionFeasible"] is False:
                     out.append(Problem("disagreement", case, "the solver's (rounded) solution violates the model's "
                                        "constraints", "model/ilp-solution"))
